@@ -247,7 +247,7 @@ def run(ctx):
             jobs += [("gen", 300, ctx.seed), ("pkg", 150, ctx.seed)]
         else:
             jobs += [("gen", 2500, ctx.seed + k * 1000003) for k in range(6)]  # the PRNG streams of seeds s and s+n overlap after n cases
-            jobs += [("pkg", 1500, ctx.seed + k * 1000003) for k in range(2)]
+            jobs += [("pkg", 1000, ctx.seed + k * 1000003) for k in range(2)]
         results = []
         with concurrent.futures.ThreadPoolExecutor(max_workers=1 if quick else 6) as ex:
             futs = [ex.submit(one_run, ctx, m, n, s) for (m, n, s) in jobs]
@@ -401,7 +401,7 @@ def run(ctx):
         "op-assign/++/--, elements and fields, if/else-if/else with early return, for loops with < <= > >= != and "
         "steps +-1..3, nested, return inside loops; twin ifs: if/else whose branches each contain an else-less inner if assigning the same variable(s) the same constant/variable under different computed conditions, also one level deeper, with early return, mixed with other assignments; the assigned variables are folded into the results); plus a fixed operator x width grid (mode `grid`): for 30 widths 15..130 (odd widths, 2^k and neighbours, both sides of every Karatsuba/array multiplier threshold) programs `a op b` with two run-time operands for * + - comparisons shifts, and for 9 widths / % signed and unsigned, on 40 (thorough 160) boundary-biased + random input pairs; 45% of the programs have <= 12 (thorough: <= 14/16) input bits "
         "and are evaluated on ALL inputs (per-program claim complete), the others on 24/48 boundary-biased tuples "
-        "(0, 1, -1, min, max, min+1, -2, 0x55.., small, random per scalar component); mode `pkg` (150 / 3000 programs): the same "
+        "(0, 1, -1, min, max, min+1, -2, 0x55.., small, random per scalar component); mode `pkg` (150 / 2000 programs): the same "
         "generator with package-level declarations of package main - `var` (initialised / zero value, scalars, arrays, structs), "
         "`const` (typed / untyped, also declared after the functions), `type Name [n]T` - used directly in main and in callees, "
         "assigned in main (before / inside / after if/else and unrolled loops), shadowed by parameters, named results and "
